@@ -649,6 +649,127 @@ fn arm_order_grid() -> (u64, u64, Vec<Violation>) {
     (n, rejected, out)
 }
 
+/// A function boundary stops `return` (and is where `break` / `continue` may not pass): every way
+/// of making and calling an inner function (declared, bound literal, literal called in place with
+/// and without parameters, callback of @ / ? / $, returned closure, module function) x inner
+/// bodies with exits nested in branches, loops, arms and blocks x the enclosing function called
+/// on both paths; expected = the enclosing function continues after the inner call.
+fn function_boundaries() -> (u64, Vec<Violation>) {
+    // inner bodies over a bool `c`: (name, body, value when c, value when !c)
+    const BODIES: &[(&str, &str, i64, i64)] = &[
+        ("return in a branch", "if c { return 1 }; return 2", 1, 2),
+        ("return in a loop", "loop { if c { return 1 }; break }; return 2", 1, 2),
+        ("return in a for", "for e in [1, 2]~ { if c { return e } }; return 5", 1, 5),
+        ("return in a match arm", "match c { true => { return 1 }, => { }, }; return 2", 1, 2),
+        ("return in an if-set", "if q: bool = c { if q { return 1 } }; return 2", 1, 2),
+        ("return in a nested block", "{ { if c { return 1 } } }; return 2", 1, 2),
+        ("return in a while-set", "while q: bool = c { if q { return 1 }; break }; return 2", 1, 2),
+        ("return in the operand of the last return", "return if c { 1 } else { { return 2 } }", 1, 2),
+        ("single exit", "return if c { 1 } else { 2 }", 1, 2),
+    ];
+    // ways of calling the inner function from the enclosing one; INNER = "(c: bool) -> int { BODY }" or its
+    // parameterless form with c captured
+    const CALLS: &[(&str, &str)] = &[
+        ("declared function", "g := (c: bool) -> int { BODY }; r := g(c)"),
+        ("literal called in place", "r := ((c: bool) -> int { BODY })(c)"),
+        ("parameterless literal called in place", "r := (() -> int { BODY })()"),
+        ("parameterless literal called in place as an operand", "r := 0 + (() -> int { BODY })()"),
+        ("parameterless declared function", "g := () -> int { BODY }; r := g()"),
+        ("callback of @", "r := ([c]~ @ (c: bool) -> int { BODY } $])[0]"),
+        ("callback of $", "r := [c]~ $ 0 (a: any, c: bool) -> int { BODY }"),
+        ("returned closure", "mk := () -> () -> int { return () -> int { BODY } }; r := mk()()"),
+        ("function of a module", "m := mod { g := (c: bool) -> int { BODY } }; r := m.g(c)"),
+        ("inside a loop of the enclosing function", "r := mut 0; for k in [1]~ { r = (() -> int { BODY })() }; r := *r"),
+    ];
+    let interp = Interpreter::with_stdlib();
+    let mut out = Vec::new();
+    let mut n = 0u64;
+    for (bname, body, yes, no) in BODIES {
+        for (cname, call) in CALLS {
+            let text = format!("outer := (c: bool) -> any {{ {}; return (r, 10) }}", call.replace("BODY", body));
+            let f = match guard(|| Code::parse(&interp, &text).map(|c| c.exec())) {
+                Ok(Ok(Ok(Variable::Function(f)))) => f,
+                other => {
+                    out.push(Violation { sig: format!("C12|function-boundary|program-fails|{cname}|{bname}"), detail: json!({"kind": "program", "stdlib": true, "text": text, "observed": format!("{:?}", other.map(|r| r.map(|r| r.map(|v| canon(&v)))))}) });
+                    continue;
+                }
+            };
+            for (c, want) in [(true, yes), (false, no)] {
+                n += 1;
+                let want = format!("({want}, 10)");
+                let got = match guard(|| f.clone().create_call(vec![Variable::Bool(c)]).map(|c| c.exec())) {
+                    Ok(Ok(Ok(r))) => canon(&r),
+                    Ok(Ok(Err(e))) => format!("error:{}", core::exec_error_kind(&e)),
+                    Ok(Err(e)) => format!("host-rejected:{}", core::error_kind(&e)),
+                    Err(Stop::Panic(p)) => format!("PANIC {} @{}", p.short_msg(), p.file()),
+                    Err(Stop::Exhausted) => continue,
+                };
+                if got != want {
+                    out.push(Violation {
+                        sig: format!("C12|function-boundary|{cname}|{bname}|c={c}"),
+                        detail: json!({"kind": "host_call", "program": text, "args": [c.to_string()], "expected": want, "observed": got}),
+                    });
+                }
+            }
+        }
+    }
+    (n, out)
+}
+
+/// Loops evaluate to `()`, wherever the `break` that ends them stands: a loop left through a break
+/// in each kind of position x uses of the loop's value that only a `()` admits (bound and
+/// returned; as a function's last statement where a result is declared: rejected; as the scrutinee
+/// of a match without a `()` arm: rejected; as an operand of `+`: rejected).
+fn loop_value_grid() -> (u64, Vec<Violation>) {
+    const EXITS: &[(&str, &str)] = &[
+        ("directly", "break"),
+        ("in a block", "{ break }"),
+        ("in an if", "if c { break }"),
+        ("in an else", "if !c { } else { break }"),
+        ("in an if-set branch", "if q: bool = c { break }"),
+        ("in an if-set else", "if q: int = c { } else { break }"),
+        ("in a match value arm", "match c { true => { break }, => { }, }"),
+        ("in a match type arm", "match c { q: bool => { break }, }"),
+        ("in a match default arm", "match c { false => { }, => { break }, }"),
+        ("in the value of a declaration", "z := if c { break } else { 1 }"),
+        ("in a block inside an arm", "match c { true => { { break } }, => { }, }"),
+        ("after a nested loop", "loop { break }; break"),
+        ("in a while-set body nested in a block", "{ if c { { break } } }"),
+    ];
+    let mut out = Vec::new();
+    let mut n = 0u64;
+    for (ename, exit) in EXITS {
+        let uses: Vec<(&str, String, Option<&str>)> = vec![
+            ("value bound", format!("c := std.len([0]) == 1; r := loop {{ {exit} }}; r"), Some("()")),
+            ("value of a while true", format!("c := std.len([0]) == 1; r := while true {{ {exit} }}; r"), Some("()")),
+            ("value returned by a () function", format!("f := (c: bool) -> () {{ return loop {{ {exit} }} }}; f(true)"), Some("()")),
+            ("last statement of an int function", format!("f := (c: bool) -> int {{ loop {{ {exit} }} }}; f(true)"), None),
+            ("scrutinee of a match without a () arm", format!("c := std.len([0]) == 1; x := loop {{ {exit} }}; m := match x {{ i: int => 1, }}; m"), None),
+            ("operand of +", format!("c := std.len([0]) == 1; x := loop {{ {exit} }}; x + 1"), None),
+            ("argument for an int parameter", format!("c := std.len([0]) == 1; g := (v: int) -> int {{ return v }}; g(loop {{ {exit} }})"), None),
+        ];
+        for (uname, text, want) in uses {
+            n += 1;
+            let o = core::run_text(&text, true, core::QUICK_FUEL);
+            let got = match &o {
+                core::Outcome::Value(v) => canon(v),
+                other => other.tag(),
+            };
+            let ok = match want {
+                Some(w) => got == w,
+                None => matches!(o, core::Outcome::Rejected(..)),
+            };
+            if !ok {
+                out.push(Violation {
+                    sig: format!("C12|loop-value|{uname}|break {ename}"),
+                    detail: json!({"kind": "program", "stdlib": true, "text": text, "expected": want.unwrap_or("rejected by the checker"), "observed": got}),
+                });
+            }
+        }
+    }
+    (n, out)
+}
+
 /// A failing operation on values captured by a function value fails when it is reached and
 /// only then: creating the function value evaluates nothing of its body (so a branch that is not
 /// chosen, or a function that is never called, cannot make the program fail), and reaching the
@@ -1008,6 +1129,10 @@ pub fn run(tier: &str) -> i32 {
     report.violations(dispatch.1);
     let value_arms = core::on_big_stack(value_arm_grid);
     report.violations(value_arms.1);
+    let loop_values = core::on_big_stack(loop_value_grid);
+    report.violations(loop_values.1);
+    let boundaries = core::on_big_stack(function_boundaries);
+    report.violations(boundaries.1);
     let arm_order = core::on_big_stack(arm_order_grid);
     report.violations(arm_order.2);
     let unreached = core::on_big_stack(|| unreached_failures("C12"));
@@ -1028,6 +1153,8 @@ pub fn run(tier: &str) -> i32 {
         "generated_programs_not_accepted": rejected,
         "type_dispatch_cases": dispatch.0,
         "value_arm_cases": value_arms.0,
+        "loop_value_cases (13 positions of the ending break x 7 uses of the loop's value)": loop_values.0,
+        "function_boundary_cases (10 ways of making and calling an inner function x 9 bodies with nested exits x both paths)": boundaries.0,
         "arm_order_cases (every sequence of 1..3 arms over value / type / catch-all arms, 6 scrutinees, run-time and constant scrutinee)": arm_order.0,
         "arm_order_programs_not_accepted (no arm covers)": arm_order.1,
         "unreached_failure_cases": unreached.0,
